@@ -287,6 +287,8 @@ pub struct Intent {
 	pub cover_max: BTreeMap<u8, Box4>,
 	/// ONE discriminating layout flag for the failure signature
 	pub flag: Option<(&'static str, Value)>,
+	/// the container holds an entry that a reader may refuse loudly (open fails) instead of ignoring it
+	pub refusal_ok: bool,
 }
 
 pub fn bbox_of<'a>(it: impl Iterator<Item = &'a Coord>) -> BTreeMap<u8, Box4> {
@@ -308,6 +310,7 @@ impl Intent {
 			cover_min: bbox_of(tiles.iter().filter(|(_, p)| !p.is_empty()).map(|(c, _)| c)),
 			cover_max: bbox_of(tiles.keys()),
 			flag: None,
+			refusal_ok: false,
 		}
 	}
 	pub fn zoom_gap(&self) -> bool {
@@ -322,6 +325,7 @@ impl Intent {
 /// first failure of the direct oracle: (kind, message)
 pub fn judge(intent: &Intent, qs: &[Coord], res: &OpenRes) -> Option<(&'static str, String)> {
 	let o = match res {
+		OpenRes::Err(_) if intent.refusal_ok => return None,
 		OpenRes::Err(e) => return Some(("open-failed", format!("open returned Err: {}", trunc(e, 200)))),
 		OpenRes::Panic(p) => return Some(("panic", format!("panic while opening: {}", trunc(p, 200)))),
 		OpenRes::Ok(o) => o,
@@ -644,7 +648,7 @@ pub fn vt_intent(bytes: &[u8], fmt: Fmt, comp: Comp, tiles: &TileMap, blocks: &[
 		let e = cov.entry(b.z).or_insert(g);
 		*e = (e.0.min(g.0), e.1.min(g.1), e.2.max(g.2), e.3.max(g.3));
 	}
-	Intent { container: "versatiles", fmt: Some(fmt), comp: Some(comp), tiles: non_empty(tiles), cover_min: cov.clone(), cover_max: cov, flag }
+	Intent { container: "versatiles", fmt: Some(fmt), comp: Some(comp), tiles: non_empty(tiles), cover_min: cov.clone(), cover_max: cov, flag, refusal_ok: false }
 }
 
 pub fn build_v(rt: &Runtime, tiles: &TileMap, ch: &VtChoices, seed: u64) -> Built {
@@ -867,6 +871,10 @@ pub struct NameChoices {
 	pub ext_variant: u8,
 	pub stray: bool,
 	pub extra_zero_blocks: usize,
+	/// directory only: file-system freedoms (links, empty directories, strays below the root, number spellings)
+	pub fs: FsLayout,
+	/// tar only: one extra member that is a link to a tile member, named like a tile: 0 none, 1 hard link, 2 symbolic link
+	pub link_member: u8,
 }
 pub fn gen_name_choices(rng: &mut Rng, tar: bool) -> NameChoices {
 	let fmt = *rng.pick(&ALL_FMT);
@@ -881,6 +889,22 @@ pub fn gen_name_choices(rng: &mut Rng, tar: bool) -> NameChoices {
 		ext_variant: if rng.chance(1, 12) { 2 } else if fmt == Fmt::Jpg && rng.chance(1, 3) { 1 } else { 0 },
 		stray: rng.chance(1, 10),
 		extra_zero_blocks: if tar && rng.chance(1, 4) { 18 } else { 0 },
+		fs: if tar || rng.chance(1, 3) { FsLayout::default() } else { gen_fs_layout(rng) },
+		link_member: if tar && rng.chance(1, 6) { rng.range(1, 2) as u8 } else { 0 },
+	}
+}
+/// checklist class 9 for the directory format: the file system is the encoder
+pub fn gen_fs_layout(rng: &mut Rng) -> FsLayout {
+	let link = rng.chance(2, 3);
+	FsLayout {
+		file_link: if link && rng.chance(2, 3) { rng.range(1, 4) as u8 } else { 0 },
+		file_share: if rng.chance(1, 3) { 2 } else { 1 },
+		x_link: if link && rng.chance(1, 3) { rng.range(1, 2) as u8 } else { 0 },
+		z_link: if link && rng.chance(1, 3) { rng.range(1, 2) as u8 } else { 0 },
+		empty_dirs: rng.chance(1, 3),
+		deep_strays: rng.chance(1, 3),
+		digits: if rng.chance(1, 5) { rng.range(1, 2) as u8 } else { 0 },
+		wrong_kind: if rng.chance(1, 12) { rng.range(1, 2) as u8 } else { 0 },
 	}
 }
 fn ext_of(ch: &NameChoices) -> String {
@@ -946,6 +970,44 @@ fn name_freedoms(ch: &NameChoices, tar: bool) -> Vec<&'static str> {
 	if ch.stray {
 		fr.push("stray_files");
 	}
+	match ch.link_member {
+		1 if tar => fr.push("hard_link_member"),
+		2 if tar => fr.push("symbolic_link_member"),
+		_ => {}
+	}
+	let f = &ch.fs;
+	match f.file_link {
+		1 => fr.push("tile_symlink_relative"),
+		2 => fr.push("tile_symlink_absolute"),
+		3 => fr.push("tile_symlink_chain"),
+		4 => fr.push("tile_hard_link"),
+		_ => {}
+	}
+	if f.file_link != 0 && f.file_share == 2 {
+		fr.push("every_tile_linked");
+	}
+	if f.x_link != 0 {
+		fr.push(if f.x_link == 1 { "x_directory_symlink_relative" } else { "x_directory_symlink_absolute" });
+	}
+	if f.z_link != 0 {
+		fr.push(if f.z_link == 1 { "z_directory_symlink_relative" } else { "z_directory_symlink_absolute" });
+	}
+	if f.empty_dirs {
+		fr.push("empty_directories");
+	}
+	if f.deep_strays {
+		fr.push("strays_below_root");
+	}
+	match f.digits {
+		1 => fr.push("leading_zeros"),
+		2 => fr.push("very_long_file_name"),
+		_ => {}
+	}
+	match f.wrong_kind {
+		1 => fr.push("file_where_x_directory_expected"),
+		2 => fr.push("file_where_z_directory_expected"),
+		_ => {}
+	}
 	fr
 }
 pub fn named_line(stream: &str, files: &[(Vec<u8>, Vec<u8>)], qs: &[Coord]) -> String {
@@ -984,27 +1046,66 @@ pub fn build_t(rt: &Runtime, scratch: &mut Scratch, tiles: &TileMap, ch: &NameCh
 		members.push(TarMember { name: full.clone().into_bytes(), data: data.clone(), typeflag: b'0', use_prefix });
 		listed.push((full.into_bytes(), data.clone()));
 	}
+	// the file system as encoder (GNU tar on a tree with hard-linked or symlinked tiles): one member of type '1' / '2'
+	// named like a tile and pointing at a tile member. Expectation: the link behaves like its target, or the archive is
+	// refused loudly. The model's listing holds regular members only (the reader skips every other member type).
+	let mut linked: Option<(Coord, Vec<u8>)> = None;
+	if ch.link_member != 0 && ch.dot_prefix != 3 {
+		let target = tiles.iter().find(|(c, p)| c.0 >= 1 && !p.is_empty());
+		if let Some(((z, x, y), p)) = target {
+			let tname = listed.iter().map(|(n, _)| String::from_utf8_lossy(n).to_string()).find(|n| n.trim_start_matches("./") == format!("{z}/{x}/{y}{}", ext_of(ch)));
+			let y2 = (0..(1u64 << z).min(1 << 20) as u32).find(|y2| !tiles.contains_key(&(*z, *x, *y2)));
+			if let (Some(tname), Some(y2)) = (tname, y2) {
+				let lname = format!("{z}/{x}/{y2}{}", ext_of(ch));
+				let target_field = if ch.link_member == 1 { tname.clone() } else { format!("{y}{}", ext_of(ch)) };
+				members.push(TarMember { name: lname.into_bytes(), data: target_field.into_bytes(), typeflag: if ch.link_member == 1 { b'1' } else { b'2' }, use_prefix: false });
+				linked = Some(((*z, *x, y2), p.clone()));
+			}
+		}
+	}
 	let bytes = encode_tar(&members, ch.extra_zero_blocks).unwrap();
 	let path = scratch.fresh(".tar");
 	std::fs::write(&path, &bytes).unwrap();
 	let sc = if ch.stray || ch.dot_prefix == 3 { None } else { selfcheck(decode_tar(&bytes), Some(ch.fmt), Some(ch.comp), tiles) };
-	let qs = queries(tiles, seed, 31);
+	let mut want = tiles.clone();
+	if let Some((c, p)) = &linked {
+		want.insert(*c, p.clone());
+	}
+	let qs = queries(&want, seed, 31);
 	let res = run_t(rt, &path, &qs);
 	rm(&path);
-	let mut intent = Intent::from_tiles("tar", ch.fmt, ch.comp, tiles);
+	let mut intent = Intent::from_tiles("tar", ch.fmt, ch.comp, &want);
 	intent.flag = Some(("dot_prefix", json!(ch.dot_prefix)));
+	if linked.is_some() {
+		intent.refusal_ok = true;
+		intent.flag = Some(("link_member", json!(if ch.link_member == 1 { "hard" } else { "symbolic" })));
+	}
 	Built { line: named_line("C16t", &listed, &qs), res, intent, qs, freedoms: name_freedoms(ch, true), selfcheck: sc }
 }
 pub fn build_d(rt: &Runtime, scratch: &mut Scratch, tiles: &TileMap, ch: &NameChoices, seed: u64) -> Built {
 	let mut r = Rng(seed);
 	let files = named_files(tiles, ch, &mut r);
 	let path = scratch.fresh("");
-	write_dir(&path, &files).unwrap();
-	let sc = if ch.stray { None } else { selfcheck(decode_dir(&path), Some(ch.fmt), Some(ch.comp), tiles) };
+	let files = if ch.fs.is_plain() {
+		write_dir(&path, &files).unwrap();
+		files
+	} else {
+		write_dir_fs(&path, &files, &ch.fs).unwrap()
+	};
+	// the independent decoder walks the tree following links; it knows canonical numbers only and refuses strays
+	let sc = if ch.stray || ch.fs.deep_strays || ch.fs.digits != 0 || ch.fs.wrong_kind != 0 { None } else { selfcheck(decode_dir(&path), Some(ch.fmt), Some(ch.comp), tiles) };
 	let qs = queries(tiles, seed, 31);
 	let res = run_d(rt, &path, &qs);
 	rm(&path);
-	let intent = Intent::from_tiles("directory", ch.fmt, ch.comp, tiles);
+	rm(&store_of(&path));
+	let mut intent = Intent::from_tiles("directory", ch.fmt, ch.comp, tiles);
+	// a regular file where the layout wants a directory: refusing the whole tree loudly is as good as ignoring the entry
+	intent.refusal_ok = ch.fs.wrong_kind != 0;
+	if !ch.fs.is_plain() {
+		let f = &ch.fs;
+		let label = if f.z_link != 0 { "z_directory_link" } else if f.x_link != 0 { "x_directory_link" } else if f.file_link == 4 { "hard_link" } else if f.file_link != 0 { "tile_symlink" } else if f.wrong_kind != 0 { "wrong_kind" } else if f.digits != 0 { "digits" } else { "extra_entries" };
+		intent.flag = Some(("fs", json!(label)));
+	}
 	let listed: Vec<(Vec<u8>, Vec<u8>)> = files.into_iter().map(|(n, d)| (n.into_bytes(), d)).collect();
 	Built { line: named_line("C16d", &listed, &qs), res, intent, qs, freedoms: name_freedoms(ch, false), selfcheck: sc }
 }
@@ -2032,6 +2133,55 @@ pub fn special_sets() -> Vec<(String, TileMap)> {
 	v
 }
 
+/// class 9, directory: a DIRECTORY whose name looks like a tile file (`<z>/<x>/<y>.<ext>/`). The model's listing cannot
+/// express it (oracle only): the reader may refuse the tree, or must deliver every real tile; a lookup of the phantom
+/// coordinate is an error or None, never a payload
+fn phantom_dir_cases(ctx: &mut Ctx, rng: &mut Rng, n: usize) {
+	for _ in 0..n {
+		let seed = rng.next();
+		let tiles = gen_tiles(rng, false);
+		let mut ch = gen_name_choices(rng, false);
+		ch.fs = FsLayout::default();
+		ch.stray = false;
+		let Some((z, x, _)) = tiles.keys().copied().find(|c| c.0 >= 1) else { continue };
+		let Some(y2) = (0..(1u64 << z).min(1 << 20) as u32).find(|y| !tiles.contains_key(&(z, x, *y))) else { continue };
+		let mut r = Rng(seed);
+		let files = named_files(&tiles, &ch, &mut r);
+		let path = ctx.scratch.fresh("");
+		write_dir(&path, &files).unwrap();
+		let d = path.join(format!("{z}/{x}/{y2}{}", ext_of(&ch)));
+		std::fs::create_dir_all(&d).unwrap();
+		std::fs::write(d.join("inner.txt"), b"x").unwrap();
+		let mut qs: Vec<Coord> = queries(&tiles, seed, 31).into_iter().filter(|q| *q != (z, x, y2)).collect();
+		qs.push((z, x, y2));
+		let res = run_d(&ctx.rt, &path, &qs);
+		rm(&path);
+		ctx.out.count("directory_named_like_a_tile");
+		ctx.out.eval(&format!("phantom-dir {z}/{x}/{y2} among {} tiles", tiles.len()), true);
+		let mut intent = Intent::from_tiles("directory", ch.fmt, ch.comp, &tiles);
+		intent.refusal_ok = true;
+		intent.flag = Some(("fs", json!("directory_named_like_a_tile")));
+		let e = intent.cover_max.entry(z).or_insert((x, y2, x, y2));
+		*e = (e.0.min(x), e.1.min(y2), e.2.max(x), e.3.max(y2));
+		let verdict = match res {
+			OpenRes::Ok(mut o) => {
+				let phantom = o.looks.pop();
+				qs.pop();
+				match phantom {
+					Some(Look::Some(b)) => Some(("extra-tile", format!("the directory {z}/{x}/{y2}{} is answered with {} bytes", ext_of(&ch), b.len()))),
+					Some(Look::Panic) => Some(("panic", format!("lookup of the directory {z}/{x}/{y2}{} panicked", ext_of(&ch)))),
+					_ => judge(&intent, &qs, &OpenRes::Ok(o)),
+				}
+			}
+			other => judge(&intent, &qs, &other),
+		};
+		match verdict {
+			None => ctx.out.oracle(true, "", json!(null), json!(null)),
+			Some((kind, msg)) => ctx.out.oracle(false, &format!("C16 directory {kind}: {msg}"), sig_of(&intent, kind), json!({"message": msg, "tiles": tiles.len(), "phantom": format!("{z}/{x}/{y2}{}", ext_of(&ch))})),
+		}
+	}
+}
+
 /// class 2: the same container cut at several offsets
 fn truncation_cases(ctx: &mut Ctx, b: &Built, rng: &mut Rng) {
 	let t: Vec<&str> = b.line.splitn(3, ' ').collect();
@@ -2087,7 +2237,7 @@ pub fn run(args: &Args) {
 	ctx.out.rule = "every opened container is also read in bulk through get_bbox_tile_stream (full level boxes, quarters, strips across 256-block borders, 3x3 boxes and whole blocks around found tiles; multi-thread runtime, catch_unwind) and must yield exactly the encoded tiles of the box, each once; containers built by an independent encoder from small random tile sets (1–40 tiles in clusters near 0 / the 256 grid / the level edge, zoom 0–14 and some 15–24, payload pool with duplicates and a few empty payloads) and random layout choices (versatiles: sparse/shuffled block index, padded or full ranges, empty declared block, shared offsets, gaps, metadata absent; pmtiles: run lengths, shared offsets, explicit offsets, 1–3 directory levels with fan-out 1–5, mixed root, internal compression none/gzip/brotli, unclustered data, section order; mbtiles: zoom gaps, view over map/images, extra metadata; tar: ./ prefix none/all/mixed, directory members, ustar prefix field, shuffled members, metadata name/compression, .jpeg/.PNG extensions; directory tree likewise); queries = encoded coordinates + ≤100 probes (8 neighbours, ±256, other zoom levels, random); codec streams VTH VBD VTI VBI PMH PMD PMF PMS HIL NAM with valid, mutated and boundary inputs. A container case is non-trivial when it uses at least one freedom the own writer never uses and has ≥ 2 tiles; a codec case when the real code does not answer `err`; distinct by case text".into();
 	ctx.out.notes.push("CHECKLIST 1 thresholds: 256-block borders, zoom 0/30/31, u32::MAX run lengths / offsets 2^32±1 in PMD/PMF/VBD, 4097+ entries (PMS), versatiles blob gaps 32767/32768/32769 in one bulk read, tar names 99/100/101/155+; the 64 MiB read-chunk rule is reached only in the thorough tier (one 70 MiB block)".into());
 	ctx.out.notes.push("CHECKLIST 2 faults after open: every container is also cut at several lengths (header, index, last byte); reader and model must fail alike or return only encoded tiles; payloads not valid under the declared compression are delivered unopened by both".into());
-	ctx.out.notes.push("CHECKLIST 3 payloads: empty, 1 byte, duplicates within/across blocks, > 64 KiB, undecodable; 5 reuse: the same reader answers all lookups again after the bulk streams; 6 order: blob order ≠ index order (reverse, column-major, random), 8 extremes: special_sets(); 9 independent encoder: every container; 10 two paths: lookup vs get_bbox_tile_stream vs model on every container".into());
+	ctx.out.notes.push("CHECKLIST 3 payloads: empty, 1 byte, duplicates within/across blocks, > 64 KiB, undecodable; 5 reuse: the same reader answers all lookups again after the bulk streams; 6 order: blob order ≠ index order (reverse, column-major, random), 8 extremes: special_sets(); 9 independent encoder: every container; for the directory format the file system is the encoder: symlinked tile files (relative, absolute, chain of two), hard links, symlinked z and x directories, every tile linked, empty directories, non-tile files and sub directories inside z/x directories, leading zeros, 200-digit file names, a regular file where a z or x directory is expected (refusal allowed), a directory named like a tile (oracle only); mode-000 entries are not generated (the harness runs as root); tar: a hard-link / symbolic-link member named like a tile and pointing at a tile member (expected: like its target or refused loudly – known finding, the reader drops it); 10 two paths: lookup vs get_bbox_tile_stream vs model on every container".into());
 	ctx.out.notes.push("CHECKLIST 4 option interplay and 7 HTTP variants: not applicable – the readers take no options besides the path and serve no requests".into());
 	if let Some(p) = &args.replay {
 		for line in std::fs::read_to_string(p).unwrap().lines() {
@@ -2203,6 +2353,7 @@ pub fn run(args: &Args) {
 			emit(&mut ctx, "C16", &tiles, b, &mut |c: &mut Ctx, t: &TileMap| build_v(&c.rt, t, &chv, seed));
 		}
 	}
+	phantom_dir_cases(&mut ctx, &mut rng, args.n(12, 60));
 	// truncated containers (class 2): cut valid versatiles / pmtiles files at structural and arbitrary offsets: the reader
 	// may fail (open or lookup), but must never panic in a lookup and never return bytes other than the encoded payload
 	for _ in 0..args.n(120, 600) {
